@@ -623,7 +623,7 @@ fn mutation_kinds() -> Vec<&'static str> {
          "directive_unknown", "directive_misplaced", "directive_repeated",
          "dirarg_wrong_literal", "dirarg_missing_required", "dirarg_unknown", "dirarg_not_needed", "dirarg_null", "dirarg_enum_member",
          "dirarg_input_field", "dirarg_variable",
-         "directive_recursive_self", "directive_recursive_mutual", "directive_recursive_type",
+         "directive_recursive_self", "directive_recursive_mutual", "directive_recursive_type", "directive_cycle_with_entry",
          // spec-invalid or odd documents outside the implemented rules: correspondence only (label x_*)
          "x_cross_kind_dup", "x_dup_directive_def", "x_ext_without_original", "x_dup_dirarg_in_app", "x_int_out_of_range", "x_nested_type_recursion", "x_empty_object", "x_empty_union"]
 }
@@ -1050,6 +1050,50 @@ fn mutate(rng: &mut Rng, m: &mut Model, kind: &str) -> Option<(String, String)> 
             site_dirs(m, &s)[k].args = Some(vec![("a".into(), "1".into())]);
             ok("directive_args", &format!("not_needed:{tag}"))
         }
+        "directive_cycle_with_entry" => {
+            // a 2- or 3-cycle of fresh directives plus an entry directive outside the cycle that leads into it; the entry is
+            // declared first (before every member), last, or in the middle.  Edges go through directives on arguments or
+            // through directives on a field of the argument's input type.  One file, so that declaration order is source order.
+            let loc = |xs: &[&str]| xs.iter().map(|s| s.to_string()).collect::<Vec<_>>();
+            let arg = |n: &str, t: Ty, dirs: Vec<App>| Arg { name: n.into(), ty: t, default: None, dirs, desc: None };
+            let app = |n: &str| App { name: n.into(), args: None };
+            let n = rng.range(2, 3);
+            let via_type = rng.chance(1, 2);
+            let mut members: Vec<Item> = vec![];
+            let mut extra_types: Vec<Item> = vec![];
+            for k in 0..n {
+                let me = format!("cyc{k}"); let next = format!("cyc{}", (k + 1) % n);
+                if via_type && k == 0 {
+                    // cyc0 -> (input CycIn, field directive) -> cyc1
+                    extra_types.push(Item::T(TypeDef { name: "CycIn".into(), kind: Kind::Input { fields: vec![arg("f", Ty::n("Int"), vec![app(&next)])] }, dirs: vec![], desc: None, is_ext: false }));
+                    members.push(Item::D(DirDef { name: me, args: vec![arg("y", wrap(rng, "CycIn"), vec![])], repeatable: false, locations: loc(&["ARGUMENT_DEFINITION", "INPUT_FIELD_DEFINITION"]), desc: None }));
+                } else {
+                    members.push(Item::D(DirDef { name: me, args: vec![arg("y", Ty::n("Int"), vec![app(&next)])], repeatable: false, locations: loc(&["ARGUMENT_DEFINITION", "INPUT_FIELD_DEFINITION"]), desc: None }));
+                }
+            }
+            if rng.chance(1, 2) { members.reverse(); }
+            let entry = Item::D(DirDef { name: "cyce".into(), args: vec![arg("x", Ty::n("Int"), vec![app(&format!("cyc{}", rng.below(n)))])], repeatable: false, locations: loc(&["FIELD"]), desc: None });
+            m.n_files = 1;
+            let order = *rng.pick(&["first", "first", "last", "middle"]);
+            match order {
+                "first" => {
+                    for it in members { let at = rng.range(0, m.items.len()); m.items.insert(at, it); }
+                    m.items.insert(0, entry);
+                }
+                "last" => {
+                    for it in members { let at = rng.range(0, m.items.len()); m.items.insert(at, it); }
+                    m.items.push(entry);
+                }
+                _ => {
+                    let mut it = members.into_iter();
+                    m.items.insert(0, it.next().unwrap());
+                    m.items.insert(1, entry);
+                    for x in it { let at = rng.range(2, m.items.len()); m.items.insert(at, x); }
+                }
+            }
+            for t in extra_types { let at = rng.range(0, m.items.len()); m.items.insert(at, t); }
+            ok("directive_recursive", &format!("cycle_with_entry:{order}:{}:{n}", if via_type { "type" } else { "args" }))
+        }
         "directive_recursive_self" | "directive_recursive_mutual" | "directive_recursive_type" | "x_nested_type_recursion" => {
             // fresh directives, so the only fault is the recursion
             let loc = |xs: &[&str]| xs.iter().map(|s| s.to_string()).collect::<Vec<_>>();
@@ -1247,6 +1291,11 @@ fn corpus() -> Vec<(&'static str, &'static str, &'static str)> {
         ("x_empty_object", "corpus:object_without_fields", "type A\ntype Query { a: A }\n"),
         ("x_empty_union", "corpus:union_without_members", "union U\ntype Query { u: U }\n"),
         ("iface_field_missing", "corpus:object_without_fields_implements", "interface I { f: Int }\ntype A implements I\ntype Query { a: A }\n"),
+        ("directive_recursive", "corpus:cycle_with_entry_first", "directive @entry(x: Int @ping) on FIELD\ndirective @ping(y: Int @pong) on ARGUMENT_DEFINITION\ndirective @pong(z: Int @ping) on ARGUMENT_DEFINITION\ntype Query { a: Int }\n"),
+        ("directive_recursive", "corpus:cycle_with_entry_last", "directive @ping(y: Int @pong) on ARGUMENT_DEFINITION\ndirective @pong(z: Int @ping) on ARGUMENT_DEFINITION\ndirective @entry(x: Int @ping) on FIELD\ntype Query { a: Int }\n"),
+        ("directive_recursive", "corpus:cycle3_with_entry_first", "directive @entry(x: Int @b) on FIELD\ndirective @a(y: Int @b) on ARGUMENT_DEFINITION\ndirective @b(y: Int @c) on ARGUMENT_DEFINITION\ndirective @c(y: Int @a) on ARGUMENT_DEFINITION\ntype Query { a: Int }\n"),
+        ("directive_recursive", "corpus:cycle_via_type_with_entry_first", "directive @entry(x: Int @ping) on FIELD\ndirective @ping(y: [In!]) on ARGUMENT_DEFINITION\ninput In { f: Int @pong }\ndirective @pong(z: Int @ping) on INPUT_FIELD_DEFINITION\ntype Query { a: Int }\n"),
+        ("directive_recursive", "corpus:two_entries_first", "directive @e1(x: Int @ping) on FIELD\ndirective @e2(x: Int @e1 @pong) on FIELD | ARGUMENT_DEFINITION\ndirective @ping(y: Int @pong) on ARGUMENT_DEFINITION\ndirective @pong(z: Int @ping) on ARGUMENT_DEFINITION\ntype Query { a: Int }\n"),
         ("missing_transitive", "corpus:implements_cycle_2", "interface A implements B { id: ID! }\ninterface B implements A { id: ID! }\ntype Query { a: Int }\n"),
         ("missing_transitive", "corpus:implements_cycle_3", "interface A implements B & C { id: ID! }\ninterface B implements C & A { id: ID! }\ninterface C implements A & B { id: ID! }\ntype Query { a: Int }\n"),
         ("missing_transitive", "corpus:implements_cycle_2_with_object", "interface A implements B { id: ID! }\ninterface B implements A { id: ID! }\ntype Query implements A & B { id: ID! }\n"),
